@@ -41,6 +41,9 @@ func firstCrossing(edges [][2]ref.PX) (a, b [2]ref.PX, found bool) {
 
 // nontrivial: routing inserted a vertex or some centre is visited twice (deepest id of the set)
 func nontrivialInput(sc *Scope, units [][]ref.P, z int) bool {
+	if sc.G.Real {
+		return true // real-grid blocks: every input counts (the reference router is not evaluated in 1e-10 units)
+	}
 	m := model(sc.G, units, z)
 	if m.MaxV >= 2 {
 		return true
